@@ -27,7 +27,8 @@ CLAIM = {
             "Wallet::can_spend refuses an empty path and compares with the three derived script types; (R8.5) the feerate "
             "compared with max_feerate_per_kw was not narrowed by a truncating integer cast; (R8.6) the segwit flags the "
             "funding clause consumes are one per input and `true` only for an output proven by the streamed previous "
-            "transaction (StreamedPSBT decoder, same obligations as C19 R19.4). Does not decide "
+            "transaction (StreamedPSBT decoder, same obligations as C19 R19.4); (R8.7) the fee velocity control restored "
+            "from the store is the one installed in the rebuilt node (same obligations as C12 R12.1). Does not decide "
             "the arithmetic inequality over arbitrary amounts.",
     "note": "non-permissive policy; is_tx_non_malleable / estimate_feerate_per_kw / Address::* trusted by name",
     "technique": "static analysis: loop-iteration path rules (at-most-once credit, credit-or-unknown) + must-pass-through + guard scenarios",
@@ -43,6 +44,7 @@ def run(ctx):
     r84(ctx)
     r85(ctx)
     r86(ctx)
+    r87(ctx)
 
 
 def _updates(fv, b, var):
@@ -375,3 +377,11 @@ def r86(ctx):
     (same obligations as C19 R19.4, evaluated here because the C08 clause depends on them)"""
     from rules import C19 as _c19
     _c19.r194(ctx, rid="R8.6")
+
+
+def r87(ctx):
+    """"cumulative fees stay within the fee velocity limit" across restarts: the fee velocity control that is restored from
+    the store is the one installed in the rebuilt node (same obligations as C12 R12.1, evaluated here because the C08
+    clause depends on them)"""
+    from rules import C12 as _c12
+    _c12.r121(ctx, rid="R8.7")
